@@ -38,6 +38,14 @@ fn diversify<F: Scalar>(v: &[F], k: usize) {
         }
     }
 }
+/// Outputs are compared between the symbolic run's IEEE shadow and the native f64 run after rounding to
+/// 2^-24: ndarray evaluates `dot` / `general_mat_mul` of f64 with matrixmultiply (other summation order, FMA)
+/// and of other scalars with its generic loop, so rounded terms may differ in the last bits.
+fn observe_q<F: Scalar>(v: F) {
+    let q = 16777216.0;
+    let x = v.shadow();
+    observe(F::lit(if x.is_finite() { (x * q).round() / q + 0.0 } else { 0.0 })); // + 0.0: -0.0 -> 0.0
+}
 fn near<F: Scalar>(a: F, b: F, tol: f64) -> SymB {
     fabs(a - b).s_le(F::lit(tol))
 }
@@ -160,9 +168,9 @@ fn ols<F: Scalar>(pr: &Params) {
         check("ols.residual orthogonal to the constant column", near(s, F::lit(0.0), TOL));
     }
     for v in &w {
-        observe(*v);
+        observe_q(*v);
     }
-    observe(b0);
+    observe_q(b0);
 }
 
 // ------------------------------------------------------------------------------------ elastic net
@@ -273,10 +281,10 @@ fn enet<F: Scalar>(pr: &Params) {
     }
     let _ = nf;
     for v in &w {
-        observe(*v);
+        observe_q(*v);
     }
-    observe(b0);
-    observe(gap);
+    observe_q(b0);
+    observe_q(gap);
     observe_usize(model.n_steps() as usize);
 }
 
@@ -397,10 +405,10 @@ fn mtenet<F: Scalar>(pr: &Params) {
         }
     }
     for t in 0..tasks {
-        observe(w[t]);
-        observe(b0[t]);
+        observe_q(w[t]);
+        observe_q(b0[t]);
     }
-    observe(gap);
+    observe_q(gap);
 }
 
 pub fn register(v: &mut Vec<HarnessDef>) {
